@@ -632,12 +632,11 @@ Proof.
   unfold member_get, member_del. induction m as [|e m IH]; [reflexivity|]. cbn. destruct (fst e =? p) eqn:E; cbn; [exact IH | rewrite E; exact IH].
 Qed.
 
-Lemma INV_peer_offline (b : broker) p (t : Z) : p <> bk_name b -> (0 <= t)%Z -> INV b -> INV (peer_offline b p t).
+Lemma INV_peer_offline (b : broker) p (t : Z) : p <> bk_name b -> INV b -> INV (peer_offline b p t).
 Proof.
-  intros Hp Ht H. unfold peer_offline. destruct (member_get (bk_members b) p) as [cnt|] eqn:G; [|exact H].
+  intros Hp H. unfold peer_offline. destruct (member_get (bk_members b) p) as [cnt|] eqn:G; [|exact H].
   destruct H as [Hn Hinv].
-  destruct (fold_del_status (bk_name b) t (subs_of (bk_state b) p) (bk_state b) Ht Hn) as [Hn' Hs].
-  split; [exact Hn'|]. cbn [bk_name]. intros q Hq. unfold INVp. cbn [bk_members bk_remote bk_state].
+  split; [exact Hn|]. cbn [bk_name]. intros q Hq. unfold INVp. cbn [bk_members bk_remote bk_state].
   destruct (N.eq_dec q p) as [->|Nq].
   - (* the peer itself: no member, no trie entry *)
     pose proof (member_get_del_same (bk_members b) p) as Gd.
@@ -651,9 +650,22 @@ Proof.
     assert (forall s, In (s, q) (fold_left (fun r k => set_del (k_ssid k, p) r) (subs_of (bk_state b) p) (bk_remote b)) <-> In (s, q) (bk_remote b)) as Rm.
     { intros s. rewrite fold_set_del_in. split; [intros [X _]; exact X | intros X; split; [exact X | intros k _ E; inversion E; congruence]]. }
     destruct (member_get (bk_members b) q) as [cq|].
-    + intros s. destruct (Hinv s) as (l & A1 & A2 & A3 & A4). exists l. rewrite Rm. split; [exact A1|]. split; [|auto].
-      intros k. rewrite A2. split; intros (B1 & B2 & B3); (split; [exact B1|]; split; [exact B2|]); [rewrite Hs by congruence | rewrite <- Hs by congruence]; assumption.
+    + intros s. destruct (Hinv s) as (l & A1 & A2 & A3 & A4). exists l. rewrite Rm. auto.
     + intros s X. apply Rm in X. exact (Hinv s X).
+Qed.
+
+Lemma INV_find_peer (b : broker) p : p <> bk_name b -> INV b -> INV (find_peer b p).
+Proof.
+  intros Hp [Hn Hinv]. destruct (member_get (bk_members b) p) as [c|] eqn:G.
+  - unfold find_peer. rewrite G. split; assumption.
+  - pose proof (Hinv p Hp) as Ip. unfold INVp in Ip. rewrite G in Ip.
+    destruct (find_peer_counts b p G Ip) as (F1 & F2 & (cnt & F3 & F4) & F5 & F6).
+    split; [rewrite F2; exact Hn|]. rewrite F1. intros q Hq. unfold INVp. rewrite F2.
+    destruct (N.eq_dec q p) as [->|Nq]; [rewrite F3; exact F4|].
+    rewrite (F5 q Nq). specialize (Hinv q Hq). unfold INVp in Hinv.
+    destruct (member_get (bk_members b) q) as [cq|].
+    + intros s. destruct (Hinv s) as (l & A1 & A2 & A3 & A4). exists l. rewrite (F6 s q Nq). auto.
+    + intros s X. apply (F6 s q Nq) in X. exact (Hinv s X).
 Qed.
 
 (* ---- every broker of every schedule ---- *)
@@ -661,6 +673,7 @@ Definition wf_ev (e : ev) : Prop :=
   match e with
   | ESub _ conn ssid t | EUnsub _ conn ssid t => conn < kbase /\ ssid < kbase /\ (0 <= t)%Z
   | EOffline b p t => p <> b /\ (0 <= t)%Z
+  | EOnline a b => a <> b
   | _ => True
   end.
 
@@ -739,8 +752,13 @@ Proof.
       rewrite fold_links_brokers; [reflexivity | intros; apply link_send_brokers].
   - eapply WINV_links; [|exact H]. reflexivity.
   - destruct We as [Hp Ht]. eapply WINV_links; [reflexivity|]. eapply WINV_links; [reflexivity|]. eapply WINV_links; [reflexivity|].
-    apply WINV_set; [exact H|]. apply INV_peer_offline; [rewrite (proj2 (H b)); exact Hp | exact Ht | apply H].
-  - eapply WINV_links; [|exact H]. reflexivity.
+    apply WINV_set; [exact H|]. apply INV_peer_offline; [rewrite (proj2 (H b)); exact Hp | apply H].
+  - assert (WINV (set_broker w (find_peer (get_broker w a) b))) as H1.
+    { apply WINV_set; [exact H|]. apply INV_find_peer; [rewrite (proj2 (H a)); intros E; apply We; symmetry; exact E | apply H]. }
+    set (w1 := set_broker w (find_peer (get_broker w a) b)) in *.
+    assert (WINV (set_broker w1 (find_peer (get_broker w1 b) a))) as H2.
+    { apply WINV_set; [exact H1|]. apply INV_find_peer; [rewrite (proj2 (H1 b)); exact We | apply H1]. }
+    eapply WINV_links; [|exact H2]. reflexivity.
 Qed.
 
 Lemma WINV_world0 ns : WINV (world0 ns).
